@@ -23,6 +23,7 @@ TRUSTED = [
     'A3 Deferred / inlineCallbacks semantics; A6 reactor timers fire once, DelayedCall.cancel',
     'A7 shlex.split / find_keywords on the STATUS_CLIENT text uninterpreted; int() model',
     'A9 Tor sends no event for a subscription before acknowledging its SETEVENTS (needed for "ownership requested before success")',
+    'launch() units: tor_binary, socks_port, user, connection_creator and an opaque _tor_config (attribute writes recorded, config_args() empty, ControlPort unset) are given, not symbolic; os.mkdir succeeds or raises OSError, tempfile.mkdtemp returns a fresh path, os.path.exists either, euid / pid any integer, functools.partial kept as a tuple, reactor.addSystemEventTrigger / spawnProcess recorded (A2/A8); IReactorCore.providedBy true',
     'induction over handler sequences (DESIGN 3.4); pyvc semantics; z3/cvc5',
 ]
 LEVEL = 'proof'
